@@ -143,6 +143,55 @@ def rate_test(ctx, rate, ncalls, seed):
                  f"rate {rate}: {lg.n} of {ncalls} calls traced, acceptance interval [{lo}, {hi}] for p=1/{rate}", raise_=False)
 
 
+def rate_test_config(ctx, rate, ncalls, seed):
+    """the rate as users set it: Config.sample_rate() (and the unset default) through monkeytype.trace(config) and the
+    shipped store logger; the rows that reach the store are counted"""
+    import monkeytype
+    from monkeytype.config import DefaultConfig
+    from monkeytype.db.base import CallTraceStore
+
+    class CountStore(CallTraceStore):
+        def __init__(self):
+            self.n = 0
+
+        def add(self, traces):
+            self.n += len(list(traces))
+
+        def filter(self, module, qualname_prefix=None, limit=2000):
+            return []
+
+    code = _wl.__code__
+    store = CountStore()
+
+    class Cfg(DefaultConfig):
+        def trace_store(self):
+            return store
+
+        def code_filter(self):
+            return lambda c: c is code
+
+        if rate is not None:
+            def sample_rate(self):
+                return rate
+
+    random.seed(seed)
+    with monkeytype.trace(Cfg()):
+        for i in range(ncalls):
+            _wl(i)
+    spec = ["RATECFG", rate, ncalls, seed]
+    ctx.case(spec, True, ["rate-workload-through-config:%s" % rate])
+    if rate in (None, 1):
+        if store.n != ncalls:
+            ctx.fail("C18/rate-unset-or-1-not-all-traced", spec, f"{store.n} of {ncalls} calls reached the store with Config.sample_rate() = {rate}", raise_=False)
+        return
+    lo, hi = interval(ncalls, 1.0 / rate)
+    ctx.extra.setdefault("rate_intervals", [])
+    ctx.extra["rate_intervals"].append({"rate": rate, "calls": ncalls, "traced": store.n, "accept": [lo, hi], "through": "monkeytype.trace(config)"})
+    if not lo <= store.n <= hi:
+        ctx.fail("C18/traced-fraction-outside-binomial-bounds", spec,
+                 f"Config.sample_rate() = {rate}: {store.n} of {ncalls} calls reached the store, acceptance interval [{lo}, {hi}] for p=1/{rate}", raise_=False)
+
+
 def _wg(n):
     for i in range(n):
         yield i
@@ -250,6 +299,7 @@ def shard(ctx):
     for i, (r, s) in enumerate(plan):
         if i % ctx.nshards == ctx.shard:
             rate_test(ctx, r, n if r != 100 else n, ctx.seed * 1000 + s)
+            rate_test_config(ctx, r, n // 4, ctx.seed * 1000 + s + 3)
             if r not in (None, 1):
                 rate_test_many(ctx, r, 400, 25 if q else 100, ctx.seed * 1000 + s + 7)
                 rate_test_mixed(ctx, r, 4000 if q else 20000, [1, 7, 24][(i + ctx.seed) % 3], ctx.seed * 1000 + s + 13)
@@ -262,6 +312,8 @@ def run(ctx):
 def replay(ctx, case):
     if case[0] == "RATE":
         return rate_test(ctx, case[1], case[2], case[3])
+    if case[0] == "RATECFG":
+        return rate_test_config(ctx, case[1], case[2], case[3])
     if case[0] == "RATEMIXED":
         return rate_test_mixed(ctx, case[1], case[2], case[3], case[4])
     if case[0] == "RATEMANY":
